@@ -224,6 +224,28 @@ class Run:
                     self.note(["C11", "C14"], "insert_multiple with a non-Point: raised=%s" % raised)
                 if raised:
                     self.after_raise("insert_multiple")
+            elif kind == "insgen":
+                # insert_multiple fed by a generator that raises after some points (C11: what was inserted stays, everything still agrees)
+                names = op[1]
+
+                def gen():
+                    for n_ in names:
+                        if n_ == "RAISE":
+                            raise Boom("the iterable fails")
+                        yield mkpoint(n_)
+                try:
+                    db.insert_multiple(gen())
+                    raised = False
+                except Boom:
+                    raised = True
+                for n_ in names:
+                    if n_ == "RAISE":
+                        break
+                    model.append(mkpoint(n_))
+                if raised != ("RAISE" in names):
+                    self.note(["C11"], "insert_multiple from a raising generator: raised=%s" % raised)
+                if raised:
+                    self.after_raise("insert_multiple(generator)")
             elif kind == "rm":
                 q, sem = parse_query(op[1])
                 m = op[2]
@@ -329,7 +351,7 @@ class Run:
         if self.stop:
             return False
         # C11: after an operation that raised, every later disagreement is also a C11 (and C06) matter
-        if kind in ("badupd", "badread") or (kind == "insm" and "BAD" in op[1]):
+        if kind in ("badupd", "badread", "insgen") or (kind == "insm" and "BAD" in op[1]):
             self.extra_props = ["C11", "C06"]
         self.compare_all()
         return True
@@ -368,7 +390,7 @@ class Run:
             return
         if [pkey(p) for p in allp] != [pkey(p) for p in model]:
             last = self.hist[-1][0]
-            props = {"rm": ["C02"], "drop": ["C02"], "rmall": ["C02"], "upd": ["C03"], "updall": ["C03"], "hupdall": ["C03", "C10"], "badupd": ["C11"], "insm": ["C11"]}.get(last, ["C01", "C07"])
+            props = {"rm": ["C02"], "drop": ["C02"], "rmall": ["C02"], "upd": ["C03"], "updall": ["C03"], "hupdall": ["C03", "C10"], "badupd": ["C11"], "insm": ["C11"], "insgen": ["C11"]}.get(last, ["C01", "C07"])
             self.note(props, "contents differ after %s" % last, ([pkey(p) for p in allp][:3], [pkey(p) for p in model][:3]))
             # resynchronise so that later comparisons are meaningful
             self.model = model = [copy.deepcopy(p) for p in allp]
@@ -478,7 +500,7 @@ QUERIES = ["Ta==x", "Ta!=x", "Tb<y", "Tb.exists", "Ta.search", "Fp>0", "Fp==1", 
 
 OPS = (
     [["ins", n] for n in ("p0", "p1", "p1b", "p2", "p3", "pe", "pn")]
-    + [["insm", ["p2", "p3"]], ["insm", ["p0", "BAD", "p1"]], ["insm", ["p1", "p0"], "m0"]]
+    + [["insm", ["p2", "p3"]], ["insm", ["p0", "BAD", "p1"]], ["insm", ["p1", "p0"], "m0"], ["insgen", ["p2", "RAISE", "p3"]], ["insgen", ["p3", "p0", "RAISE"]]]
     + [["rm", "Ta==x", None], ["rm", ["~", "Fp==1"], None], ["rm", "t<=1", None], ["rm", ["&", "Ta==x", "Fp>0"], "m0"], ["rm", "Fq.exists", "m0", "handle"], ["rm", "M.test", None]]
     + [["drop", "m0"], ["drop", "m1", "handle"], ["rmall"]]
     + [["upd", "Ta==x", None, "tags_static"], ["upd", "Fp>0", "m0", "fields_callable"], ["upd", "t>=2", None, "time_callable"], ["upd", ["~", "Fp==1"], None, "meas_static"],
@@ -531,7 +553,7 @@ def main():
             for ops in itertools.product(OPS, repeat=n):
                 jobs.append((cfg, list(ops)))
     nexh = len(jobs)
-    core = [o for o in OPS if o[0] in ("ins", "rm", "upd", "rmall", "drop", "insm")]
+    core = [o for o in OPS if o[0] in ("ins", "rm", "upd", "rmall", "drop", "insm", "insgen")]
     nrand = 1500 if a.tier == "quick" else 40000
     for _ in range(nrand):
         ln = rnd.randint(3, 9)
